@@ -100,7 +100,12 @@ def _corrupt_total(e):
     return False
 
 
-CORRUPTORS = {"Trace_Total": _corrupt_total, "Trace_Contains": _corrupt_contains, "Trace_Lit": _corrupt_lit, "Trace_Panic": _corrupt_panic, "Trace_Lang": _corrupt_lang, "Trace_Ctx": _corrupt_ctx, "Trace_Reg": _corrupt_reg,
+def _corrupt_conc(e):
+    e["results"] = [not e["results"][0]]
+    return True
+
+
+CORRUPTORS = {"Trace_Conc": _corrupt_conc, "Trace_Total": _corrupt_total, "Trace_Contains": _corrupt_contains, "Trace_Lit": _corrupt_lit, "Trace_Panic": _corrupt_panic, "Trace_Lang": _corrupt_lang, "Trace_Ctx": _corrupt_ctx, "Trace_Reg": _corrupt_reg,
               "Trace_Types": _corrupt_types, "Trace_Serde": _corrupt_serde}
 
 
@@ -354,6 +359,23 @@ CHECKS = {
             mc("types", "MC_C15.tla", dict(quick="MC_C15_quick.cfg", thorough="MC_C15_thorough.cfg"), replay_cmd="replay-types", workers=4),
             mc("deep", "MC_C15.tla", "MC_C15_deep.cfg", replay_cmd="replay-types", workers=2),
             trace("random-types-and-schemes", "Trace_Types", ["gen-types"], 1500, 60000, shards=SH),
+        ],
+    ),
+    "C18": dict(
+        level="exploration",
+        rule="WfConcurrent (3 threads x 2 executions, LazyLock latch) is model-checked: latch agreement, results = sequential meaning. "
+             "Stress: 12 random filters (regex/wildcard, contains, `in {..}`, lists, map-each, calls) compiled once and executed from "
+             "T in {2,4,16,64} threads released by a barrier, on shared (even threads) and per-thread (odd threads) copies of 5 contexts, "
+             "hundreds of rounds in per-thread orders; fresh child processes race the first use of lazily initialised state with 16/64 "
+             "threads; a fresh compilation of every filter is compared as well. Per thread and (filter, context) the set of distinct "
+             "results observed must be exactly { EvalFilter(filter, context) } (Trace_Conc) and the SIMD switch the process-wide value.",
+        assumptions=["thread schedules are not controllable: stress exploration judged by the specification",
+                     "data races without an observable effect on results are out of reach"],
+        stages=[
+            mc("latch-model", "WfConcurrent.tla", "MC_C18.cfg", replay=False),
+            trace("stress", "Trace_Conc", ["gen-conc", "--rounds", "400", "--procs", "12"], 1, 6, env={"FILTERS": "filters.ndjson"}, shards=dict(quick=1, thorough=4)),
+            trace("stress-scalar", "Trace_Conc", ["gen-conc", "--rounds", "100", "--procs", "4"], 1, 2, env={"FILTERS": "filters.ndjson"},
+                  gen_env={"WIREFILTER_USE_AVX2": "0"}, seed_off=9, shards=dict(quick=1, thorough=2)),
         ],
     ),
     "C19": dict(
